@@ -33,8 +33,9 @@ RULES = {
     "R7": "intercept: alpha := mean(y) under fake_intercept, Mu shifted by the difference",
     "R8": "multivariate normal draw: triangularity typestate (mean Q^-1 b, covariance Q^-1)",
     "R9": "exported state wiring and predictor == _reconstruct_Mu under renaming",
+    "R10": "the row-index lists the blocks read through hold row numbers derived from the sampler's row count",
 }
-MIN = {"R1": 3, "R2": 5, "R3": 7, "R4": 18, "R5": 5, "R6": 9, "R7": 2, "R8": 3, "R9": 3}
+MIN = {"R1": 3, "R2": 5, "R3": 7, "R4": 18, "R5": 5, "R6": 9, "R7": 2, "R8": 3, "R9": 3, "R10": 3}
 TRUSTED = ["own derivation of the full conditionals from the stated model (table BLOCKS below, DESIGN.md A.4)",
            "numpy/scipy: cholesky returns the lower factor; solve_triangular / cho_solve semantics",
            "row stacks distribute over right-multiplication (np.concatenate([a, b]) @ v == concatenate([a @ v, b @ v]))"]
@@ -1026,7 +1027,14 @@ def r9(ctx):
               "the sampler's gather no longer zeroes control (-1) rows on a copy")
 
 
-RULE_FUNCS = [r1, r234, r5, r6, r7, r8, r9]
+def r10(ctx):
+    """every block reads y, Mu and the design through the per-sample / per-treatment row-index lists: they must hold the positions of the
+    observations (C04.R11's clause run here)"""
+    from . import C04
+    ctx.borrow(C04.row_numbers_from_row_count, "R10", "R10")
+
+
+RULE_FUNCS = [r1, r234, r5, r6, r7, r8, r9, r10]
 
 
 def run(ctx):
